@@ -98,7 +98,48 @@ func unwrapA(wfk []byte, alg, name string, nonce, tag []byte) ([]byte, error) {
 	if alg != "A256KW" {
 		return nil, errors.New("vault: this key only does A256KW")
 	}
+	// CALLBACK-OWNED MEMORY: for about half of the wrapped keys the recipient's key store caches the
+	// unwrapped file key and answers every later request with the SAME slice (guard bytes around it).
+	// That memory is the key store's: verifyKeyCache checks after every Decrypt that kit left it alone.
+	if len(wfk) > 0 && wfk[0]%2 == 0 {
+		if c, ok := keyCache[string(wfk)]; ok {
+			return c.buf[16:48], nil
+		}
+		k, err := kekUnwrap(0, wfk)
+		if err == nil && len(k) == 32 && len(keyCache) < 4096 {
+			c := &cachedKey{buf: bytes.Repeat([]byte{0xA5}, 64)}
+			copy(c.buf[16:], k)
+			c.want = append([]byte(nil), c.buf...)
+			keyCache[string(wfk)] = c
+			return c.buf[16:48], nil
+		}
+		return k, err
+	}
 	return kekUnwrap(0, wfk)
+}
+
+type cachedKey struct{ buf, want []byte }
+
+var (
+	keyCache = map[string]*cachedKey{}
+	curIdx   int
+)
+
+// verifyKeyCache: did kit write to a key slice (or around it) that the unwrap callback owns?
+func verifyKeyCache(after string) {
+	for _, c := range keyCache {
+		if !bytes.Equal(c.buf, c.want) {
+			at := firstDiff(c.buf, c.want)
+			sig := "callback/unwrap/returned-key-modified"
+			if at < 16 || at >= 48 {
+				sig = "callback/unwrap/returned-key-neighbours-modified"
+			}
+			rec.Violation(curIdx, sig, fmt.Sprintf("after %s the cached file key the unwrap callback answers from has changed at offset %d of its 16+32+16 byte record: now %x, was %x", after, at, c.buf[16:48], c.want[16:48]),
+				map[string]any{"after": after})
+			copy(c.buf, c.want) // repaired, so that the mutants that follow are judged on their own
+		}
+	}
+	rec.Count("callback.key_cache_verified", 1)
 }
 
 // refUnwrapA is the same honest recipient, for the reference implementation.
@@ -383,6 +424,9 @@ func start(m *mutant, rng *mon.RNG) *session {
 		}()
 		s.dr, o.decErr = enc.Decrypt(r, enc.DecryptOptions{UnwrapKeyFn: uw})
 	}()
+	if len(keyCache) > 0 {
+		verifyKeyCache("Decrypt of " + m.class + "@" + m.pos)
+	}
 	if o.decErr != nil {
 		s.done = true
 		return s
@@ -1387,7 +1431,7 @@ func TestCheck(t *testing.T) {
 		"srcerr.surfaced", "truncate.at.segment-boundary", "truncate.at.header-end", "truncate.at.segment-tag", "truncate.at.segment-body", "srcerr.at.final-eof", "srcerr.at.final-eof+data",
 		"rejected_or_identical.seg-swap", "rejected_or_identical.splice-samekek", "rejected_or_identical.splice-otherkek", "rejected_or_identical.unwrap", "rejected_or_identical.extend",
 		"huge.tamper_rejected.seg-replace", "huge.tamper_rejected.seg-swap", "huge.rejected_exactly_at_segment_65536",
-		"forged.documents_judged", "forged.refused_by_decrypt", "forged.unwrap.honest", "forged.unwrap.error", "forged.unwrap.that-key-with-error", "forged.unwrap.64-bytes",
+		"callback.key_cache_verified", "forged.documents_judged", "forged.refused_by_decrypt", "forged.unwrap.honest", "forged.unwrap.error", "forged.unwrap.that-key-with-error", "forged.unwrap.64-bytes",
 		"overlap.cases", "overlap.outer_stream_was_half_read", "overlap.intact_stream_exact", "overlap.abandoned_cases", "overlap.abandoned_stream_prefix_ok", "overlap.abandoned_stream_closed",
 		"overlap.inner.decrypt-valid", "overlap.inner.decrypt-tampered", "overlap.inner.decrypt-garbage", "overlap.inner.encrypt_ok",
 		"rejected_or_identical.srcerr", "rejected_or_identical.srcerr(unexpected-eof)", "rejected_or_identical.srcerr(wrapped-unexpected-eof)", "rejected_or_identical.srcerr(context-canceled)", "srcerr.surfaced_as_the_injected_error",
@@ -1406,6 +1450,7 @@ func TestCheck(t *testing.T) {
 		if !mon.Mine(idx) {
 			continue
 		}
+		curIdx = idx
 		rec.Begin(idx, h.String())
 		runHuge(idx, h)
 	}
@@ -1415,6 +1460,7 @@ func TestCheck(t *testing.T) {
 		if !mon.Mine(idx) {
 			continue
 		}
+		curIdx = idx
 		rec.Begin(idx, f.String())
 		runForged(idx, f)
 	}
@@ -1424,6 +1470,7 @@ func TestCheck(t *testing.T) {
 			continue
 		}
 		sp := specs[c.base]
+		curIdx = idx
 		rec.Begin(idx, fmt.Sprintf("base#%d{len=%d cipher=%s producer=%s} family=%s", c.base, sp.length, refenc.CipherName(sp.cipher), sp.producer, families[c.family].name))
 		b, ok := bases[c.base]
 		if !ok {
